@@ -607,6 +607,9 @@ func (r *replayer) run(v violation, path string) (string, error) {
 		own = v.Harness[3:6]
 	}
 	cmd.Env = append(os.Environ(), "VX_REPLAY="+path, "VX_OWNER="+own)
+	if v.Kind == "witness" {
+		cmd.Env = append(cmd.Env, "VX_WITNESS=1")
+	}
 	out, _ := cmd.CombinedOutput()
 	return string(out), nil
 }
@@ -781,10 +784,7 @@ func (r *replayer) validateWitnesses(prop string, wits []violation, tier string)
 			path := filepath.Join(dir, fmt.Sprintf("w%d.json", k))
 			b, _ := json.Marshal(w)
 			os.WriteFile(path, b, 0o644)
-			tries := 1
-			if w.Threads > 1 {
-				tries = 3
-			}
+			tries := 3
 			for t := 0; t < tries; t++ {
 				o, err := r.run(w, path)
 				v, d := classifyWitness(w, o, err)
